@@ -8,46 +8,212 @@ From Blue Require Import Lsm.Model Lsm.KeyOrder Lsm.SortLemmas Crash.Model Crash
 Import ListNotations.
 Open Scope N_scope.
 
-(* ------------------------------------------------------------------ sublists *)
-Inductive sub {A : Type} : list A -> list A -> Prop :=
-| sub_nil : sub [] []
-| sub_skip x a b : sub a b -> sub a (x :: b)
-| sub_keep x a b : sub a b -> sub (x :: a) (x :: b).
+(* ------------------------------------------------------------------ what a reader can observe *)
+(* `shows E k x`: among the entries E the newest version of key k carries x (None: a tombstone,
+   or no version at all) - what a get of k returns from a store holding E (C01 makes that link) *)
+Definition shows (E : list entry) (k : key) (x : option (list N)) : Prop :=
+  (exists e, In e E /\ ek e = k /\ ev e = x /\ forall e', In e' E -> ek e' = k -> ets e' <= ets e)
+  \/ (x = None /\ forall e, In e E -> ek e <> k).
 
-Lemma sub_refl {A} (l : list A) : sub l l.
-Proof. induction l; constructor; assumption. Qed.
+Lemma shows_set_eq E E' : (forall e, In e E <-> In e E') -> forall k x, shows E k x -> shows E' k x.
+Proof.
+  intros H k x [(e & He & Hk & Hx & Hmax)|[Hx Hno]].
+  - left. exists e. split; [now apply H|]. split; [exact Hk|]. split; [exact Hx|]. intros e' He'. apply Hmax. now apply H.
+  - right. split; [exact Hx|]. intros e He. apply Hno. now apply H.
+Qed.
 
-Lemma sub_app_skip {A} (a b : list A) x : sub a b -> sub a (b ++ [x]).
-Proof. induction 1; cbn; [apply sub_skip, sub_nil|now apply sub_skip|now apply sub_keep]. Qed.
+(* no two different entries carry the same key and timestamp *)
+Definition ts_unique (E : list entry) : Prop :=
+  forall e e', In e E -> In e' E -> ek e = ek e' -> ets e = ets e' -> e = e'.
 
-Lemma sub_app_keep {A} (a b : list A) x : sub a b -> sub (a ++ [x]) (b ++ [x]).
-Proof. induction 1; cbn; [apply sub_keep, sub_nil|now apply sub_skip|now apply sub_keep]. Qed.
+Lemma ts_unique_incl E E' : incl E' E -> ts_unique E -> ts_unique E'.
+Proof. intros Hi Hu e e' He He'. apply Hu; now apply Hi. Qed.
 
-Lemma sub_in {A} (a b : list A) x : sub a b -> In x a -> In x b.
-Proof. induction 1; cbn; intuition. Qed.
+Lemma newest_none E k : newest E k = None -> forall e, In e E -> ek e <> k.
+Proof.
+  induction E as [|a E IH]; cbn [newest]; [intros _ e []|].
+  destruct (key_eqb (ek a) k) eqn:Ek.
+  - destruct (newest E k) as [b|]; [destruct (ets a <? ets b)|]; discriminate.
+  - intros H e [<-|He]; [|now apply IH]. intros Hk. apply key_eqb_eq in Hk. congruence.
+Qed.
+
+Lemma newest_some E k m : newest E k = Some m ->
+  In m E /\ ek m = k /\ forall e, In e E -> ek e = k -> ets e <= ets m.
+Proof.
+  revert m. induction E as [|a E IH]; cbn [newest]; [discriminate|]. intros m.
+  destruct (key_eqb (ek a) k) eqn:Ek.
+  - apply key_eqb_eq in Ek. destruct (newest E k) as [b|] eqn:Nb.
+    + destruct (IH b eq_refl) as (Hb & Hkb & Hmax). destruct (ets a <? ets b) eqn:Lt; intros H; inversion H; subst m.
+      * apply N.ltb_lt in Lt. split; [now right|]. split; [exact Hkb|]. intros e [<-|He] Hk; [lia|now apply Hmax].
+      * apply N.ltb_ge in Lt. split; [now left|]. split; [exact Ek|]. intros e [<-|He] Hk; [lia|]. specialize (Hmax e He Hk). lia.
+    + intros H. inversion H; subst m. split; [now left|]. split; [exact Ek|].
+      intros e [<-|He] Hk; [lia|]. exfalso. exact (newest_none E k Nb e He Hk).
+  - intros H. destruct (IH m H) as (Hm & Hkm & Hmax). split; [now right|]. split; [exact Hkm|].
+    intros e [<-|He] Hk; [|now apply Hmax]. apply key_eqb_eq in Hk. congruence.
+Qed.
+
+Lemma vis_shows E k : shows E k (vis E k).
+Proof.
+  unfold vis. destruct (newest E k) as [m|] eqn:Nm; cbn [shown].
+  - destruct (newest_some E k m Nm) as (Hm & Hk & Hmax). left. exists m. auto.
+  - right. split; [reflexivity|]. now apply newest_none.
+Qed.
+
+Lemma shows_vis E k x : ts_unique E -> shows E k x -> x = vis E k.
+Proof.
+  intros Hu [(e & He & Hk & Hx & Hmax)|[Hx Hno]]; unfold vis.
+  - destruct (newest E k) as [m|] eqn:Nm; cbn [shown].
+    + destruct (newest_some E k m Nm) as (Hm & Hkm & Hmaxm).
+      assert (e = m). { apply Hu; [exact He|exact Hm|congruence|]. specialize (Hmax m Hm Hkm). specialize (Hmaxm e He Hk). lia. }
+      subst m. now symmetry.
+    + exfalso. exact (newest_none E k Nm e He Hk).
+  - destruct (newest E k) as [m|] eqn:Nm; cbn [shown]; [|exact Hx].
+    destruct (newest_some E k m Nm) as (Hm & Hkm & _). exfalso. exact (Hno m Hm Hkm).
+Qed.
+
+(* ------------------------------------------------------------------ the specification *)
+(* batches applied in the order they were issued; within the map the last write to a key wins *)
+Definition find_key (k : key) (b : list entry) : option entry := find (fun e => key_eqb (ek e) k) b.
+Definition apply_batch (m : key -> option (list N)) (b : list entry) : key -> option (list N) :=
+  fun k => match find_key k b with Some e => ev e | None => m k end.
+Definition spec (W : list (list entry)) : key -> option (list N) := fold_left apply_batch W (fun _ => None).
+
+(* the store's entries E are explained by the batches W: every key reads as the last write to it,
+   and the store holds nothing that was not written *)
+Definition explains (W : list (list entry)) (E : list entry) : Prop :=
+  (forall k x, shows E k x -> x = spec W k) /\ incl E (concat W).
+
+Lemma spec_snoc W b k : spec (W ++ [b]) k = apply_batch (spec W) b k.
+Proof. unfold spec. rewrite fold_left_app. reflexivity. Qed.
+
+Lemma nodup_map_inj {A B} (f : A -> B) l a b : NoDup (map f l) -> In a l -> In b l -> f a = f b -> a = b.
+Proof.
+  induction l as [|x l IH]; [intros _ []|]. cbn [map]. intros Hnd Ha Hb Hf. inversion Hnd as [|? ? Hx Hl]; subst.
+  destruct Ha as [<-|Ha], Hb as [<-|Hb]; [reflexivity| | |now apply IH].
+  - exfalso. apply Hx. rewrite Hf. now apply in_map.
+  - exfalso. apply Hx. rewrite <- Hf. now apply in_map.
+Qed.
+
+Lemma explains_write W E es t :
+  (forall e, In e E -> ets e < t) -> (forall e, In e es -> ets e = t) -> NoDup (map ek es) ->
+  explains W E -> explains (W ++ [es]) (E ++ es).
+Proof.
+  intros Hold Hnew Hnd [Hsp Hin]. split.
+  - intros k x Hs. rewrite spec_snoc. unfold apply_batch, find_key.
+    destruct (find (fun e => key_eqb (ek e) k) es) as [e0|] eqn:F.
+    + apply find_some in F. destruct F as [He0 Hk0]. apply key_eqb_eq in Hk0.
+      destruct Hs as [(e & He & Hk & Hx & Hmax)|[_ Hno]].
+      * assert (Hle : ets e0 <= ets e) by (apply Hmax; [apply in_or_app; now right|exact Hk0]).
+        apply in_app_or in He. destruct He as [He|He].
+        -- specialize (Hold e He). rewrite (Hnew e0 He0) in Hle. lia.
+        -- assert (e = e0) by (apply (nodup_map_inj ek es); [exact Hnd|exact He|exact He0|congruence]). subst e0. now symmetry.
+      * exfalso. apply (Hno e0); [apply in_or_app; now right|exact Hk0].
+    + pose proof (find_none _ _ F) as Hnone. apply Hsp.
+      destruct Hs as [(e & He & Hk & Hx & Hmax)|[Hx Hno]].
+      * left. exists e. apply in_app_or in He. destruct He as [He|He].
+        -- split; [exact He|]. split; [exact Hk|]. split; [exact Hx|]. intros e' He'. apply Hmax. apply in_or_app. now left.
+        -- exfalso. specialize (Hnone e He). cbn beta in Hnone. rewrite Hk, key_eqb_refl in Hnone. discriminate.
+      * right. split; [exact Hx|]. intros e He. apply Hno. apply in_or_app. now left.
+  - intros e He. rewrite concat_app. cbn [concat]. rewrite app_nil_r. apply in_app_or in He. apply in_or_app.
+    destruct He as [He|He]; [left; now apply Hin|now right].
+Qed.
+
+Lemma explains_sub W E E' : incl E' E -> (forall k x, shows E' k x -> shows E k x) -> explains W E -> explains W E'.
+Proof. intros Hi Hs [A B]. split; [intros k x H; apply A, Hs, H|intros e He; apply B, Hi, He]. Qed.
+
+Lemma explains_set_eq W E E' : (forall e, In e E <-> In e E') -> explains W E -> explains W E'.
+Proof.
+  intros H. apply explains_sub; [intros e He; now apply H|].
+  apply shows_set_eq. intros e. symmetry. apply H.
+Qed.
+
+Lemma ts_unique_write E es t :
+  (forall e, In e E -> ets e < t) -> (forall e, In e es -> ets e = t) -> NoDup (map ek es) ->
+  ts_unique E -> ts_unique (E ++ es).
+Proof.
+  intros Hold Hnew Hnd Hu e e' He He' Hk Ht. apply in_app_or in He. apply in_app_or in He'.
+  destruct He as [He|He], He' as [He'|He'].
+  - now apply Hu.
+  - specialize (Hold e He). rewrite (Hnew e' He') in Ht. lia.
+  - specialize (Hold e' He'). rewrite (Hnew e He) in Ht. lia.
+  - apply (nodup_map_inj ek es); assumption.
+Qed.
+
+(* ------------------------------------------------------------------ the ghost history *)
+(* every write the application issued, in order: (true, batch) when the call returned Ok; (false,
+   batch) when a crash (or a surfaced error) took it in flight.  `sel h W`: W keeps every
+   acknowledged batch of h and some of the others, each whole, in order. *)
+Inductive sel : list (bool * list entry) -> list (list entry) -> Prop :=
+| sel_nil : sel [] []
+| sel_keep a b l w : sel l w -> sel ((a, b) :: l) (b :: w)
+| sel_drop b l w : sel l w -> sel ((false, b) :: l) w.
+
+Lemma sel_snoc_keep l w a b : sel l w -> sel (l ++ [(a, b)]) (w ++ [b]).
+Proof. induction 1; cbn; [apply sel_keep, sel_nil|now apply sel_keep|now apply sel_drop]. Qed.
+
+Lemma sel_snoc_drop l w b : sel l w -> sel (l ++ [(false, b)]) w.
+Proof. induction 1; cbn; [apply sel_drop, sel_nil|now apply sel_keep|now apply sel_drop]. Qed.
+
+(* every acknowledged batch is kept, nothing foreign is added *)
+Lemma sel_acked l w : sel l w -> forall b, In (true, b) l -> In b w.
+Proof.
+  induction 1 as [|a b0 l w _ IH|b0 l w _ IH]; intros b; cbn [In]; [intros []| |].
+  - intros [H|H]; [inversion H; now left|right; now apply IH].
+  - intros [H|H]; [discriminate|now apply IH].
+Qed.
+
+Lemma sel_from l w : sel l w -> forall b, In b w -> exists a, In (a, b) l.
+Proof.
+  induction 1 as [|a b0 l w _ IH|b0 l w _ IH]; intros b; cbn [In]; [intros []| |].
+  - intros [<-|H]; [exists a; now left|]. destruct (IH b H) as (a' & Ha'). exists a'. now right.
+  - intros H. destruct (IH b H) as (a' & Ha'). exists a'. now right.
+Qed.
 
 (* ------------------------------------------------------------------ operations *)
+(* which operations the transition system takes: a write batch names each key once (the store
+   deduplicates before it logs); a compaction's inputs are live, its outputs hold only entries of
+   its inputs, and it does not change what any key reads as - for a merge that is immediate
+   (`merge_accepted`), for a garbage collection it is C05's theorem about the tree; the driver
+   evaluates `acceptedb` on every step of every history *)
 Definition accepted (v : vstate) (o : op) : Prop :=
-  match o with OpCompact _ ins outs => compact_ok v ins outs | _ => True end.
+  match o with
+  | OpWrite b => NoDup (map fst b)
+  | OpFlush => True
+  | OpCompact gc ins outs =>
+      compact_ok v ins outs /\ forall k, vis (all_entries (op_next v o)) k = vis (all_entries v) k
+  end.
 
 Definition op_batch (v : vstate) (o : op) : option (list entry) :=
   match o with OpWrite b => Some (batch_entries v b) | _ => None end.
 
-Lemma op_walk s v o : Run s v -> accepted v o ->
-  walk (fst (op_prog v s o)) s (all_entries v) (op_batch v o)
+(* the crash outcomes of an operation: `op_base` or `op_base ++ op_pend` *)
+Definition op_base (v : vstate) (o : op) : list entry :=
+  match o with OpCompact _ _ _ => all_entries (op_next v o) | _ => all_entries v end.
+Definition op_pend (v : vstate) (o : op) : option (list entry) :=
+  match o with OpWrite b => Some (batch_entries v b) | OpFlush => None | OpCompact _ _ _ => Some (all_entries v) end.
+
+Definition op_fs_ok (v : vstate) (o : op) : Prop :=
+  match o with OpCompact _ ins outs => compact_ok v ins outs | _ => True end.
+
+Lemma accepted_fs_ok v o : accepted v o -> op_fs_ok v o.
+Proof. destruct o; cbn; tauto. Qed.
+
+Lemma op_walk s v o : Run s v -> op_fs_ok v o ->
+  walk (fst (op_prog v s o)) s (op_base v o) (op_pend v o)
        (fun s' => snd (op_prog v s o) = true -> Run s' (op_next v o)).
 Proof.
-  intros R Ha. destruct o as [b| |gc ins outs]; cbn [op_prog op_batch fst snd].
+  intros R Ha. destruct o as [b| |gc ins outs]; cbn [op_prog op_base op_pend fst snd].
   - eapply walk_conseq; [|apply write_walk, R]. auto.
   - apply flush_walk, R.
   - eapply walk_conseq; [|apply compact_walk; [exact R|exact Ha]]. auto.
 Qed.
 
-Lemma all_entries_next v o : accepted v o -> forall e,
+(* writes and flushes keep every entry *)
+Lemma all_entries_next v o : (forall gc ins outs, o <> OpCompact gc ins outs) -> forall e,
   In e (all_entries (op_next v o)) <->
   In e (all_entries v ++ match op_batch v o with Some p => p | None => [] end).
 Proof.
-  intros Ha e. destruct o as [b| |gc ins outs]; cbn [op_next op_batch]; unfold all_entries; cbn [v_mem v_files].
+  intros Hn e. destruct o as [b| |gc ins outs]; cbn [op_next op_batch]; unfold all_entries; cbn [v_mem v_files].
   - rewrite !in_app_iff. tauto.
   - rewrite app_nil_r. cbn [app]. rewrite in_app_iff, !in_concat. split.
     + intros (x & Hx & He). apply in_apply_edit in Hx. destruct Hx as [[Hx _]|[<-|[]]]; [right; eauto|].
@@ -55,49 +221,181 @@ Proof.
     + intros [H|(x & Hx & He)].
       * exists (sort_entries (v_mem v)). split; [apply in_apply_edit; right; now left|now apply in_sort_entries].
       * exists x. split; [apply in_apply_edit; left; split; [exact Hx|intros []]|exact He].
-  - rewrite app_nil_r. rewrite !in_app_iff, !in_concat. destruct Ha as [Hincl Hents].
-    split; (intros [H|(x & Hx & He)]; [now left|right]).
-    + apply in_apply_edit in Hx. destruct Hx as [[Hx _]|Hx]; [eauto|].
-      assert (Hc : In e (concat ins)) by (apply Hents, in_concat; eauto).
-      apply in_concat in Hc. destruct Hc as (z & Hz & Hez). exists z. split; [now apply Hincl|exact Hez].
-    + destruct (mem_sname x ins) eqn:Em.
-      * apply mem_sname_in in Em.
-        assert (Hc : In e (concat outs)) by (apply Hents, in_concat; eauto).
-        apply in_concat in Hc. destruct Hc as (z & Hz & Hez). exists z. split; [apply in_apply_edit; now right|exact Hez].
-      * apply mem_sname_not_in in Em. exists x. split; [apply in_apply_edit; left; auto|exact He].
+  - exfalso. now apply (Hn gc ins outs).
 Qed.
+
+Lemma all_entries_next_incl v o : op_fs_ok v o ->
+  incl (all_entries (op_next v o)) (all_entries v ++ match op_batch v o with Some p => p | None => [] end).
+Proof.
+  intros Ha e He. destruct o as [b| |gc ins outs].
+  - apply (all_entries_next v (OpWrite b)); [discriminate|exact He].
+  - apply (all_entries_next v OpFlush); [discriminate|exact He].
+  - cbn [op_batch]. rewrite app_nil_r. exact (entries_after_sub v gc ins outs Ha e He).
+Qed.
+
+(* a merge - outputs with exactly the inputs' entries - is accepted *)
+Lemma merge_accepted v gc ins outs (U : ts_unique (all_entries v)) :
+  incl ins (v_files v) -> (forall e, In e (concat outs) <-> In e (concat ins)) ->
+  accepted v (OpCompact gc ins outs).
+Proof.
+  intros Hincl Hents. assert (Hok : compact_ok v ins outs) by (split; [exact Hincl|intros e; apply Hents]).
+  split; [exact Hok|]. intros k.
+  assert (Heq : forall e, In e (all_entries (op_next v (OpCompact gc ins outs))) <-> In e (all_entries v)).
+  { intros e. split; [apply (entries_after_sub v gc ins outs Hok)|].
+    unfold all_entries. cbn [op_next v_mem v_files]. rewrite !in_app_iff, !in_concat.
+    intros [H|(x & Hx & He)]; [now left|right]. destruct (mem_sname x ins) eqn:Em.
+    - apply mem_sname_in in Em.
+      assert (Hc : In e (concat outs)) by (apply Hents, in_concat; eauto).
+      apply in_concat in Hc. destruct Hc as (z & Hz & Hez). exists z. split; [apply in_apply_edit; now right|exact Hez].
+    - apply mem_sname_not_in in Em. exists x. split; [apply in_apply_edit; left; auto|exact He]. }
+  symmetry. apply shows_vis.
+  - eapply ts_unique_incl; [|exact U]. intros e He. now apply Heq.
+  - apply (shows_set_eq (all_entries v)); [intros e; symmetry; apply Heq|apply vis_shows].
+Qed.
+
+Lemma newest_none_conv E k : (forall e, In e E -> ek e <> k) -> newest E k = None.
+Proof.
+  induction E as [|a E IH]; intros H; cbn [newest]; [reflexivity|].
+  destruct (key_eqb (ek a) k) eqn:Ek.
+  - apply key_eqb_eq in Ek. exfalso. apply (H a); [now left|exact Ek].
+  - apply IH. intros e He. apply H. now right.
+Qed.
+
+Lemma keys_nodupb_nodup ks : keys_nodupb ks = true -> NoDup ks.
+Proof.
+  induction ks as [|k r IH]; cbn [keys_nodupb]; [constructor|]. intros H. apply andb_prop in H. destruct H as [H1 H2].
+  constructor; [|now apply IH]. intros Hin. apply negb_true_iff in H1.
+  assert (existsb (key_eqb k) r = true) by (apply existsb_exists; exists k; split; [exact Hin|apply key_eqb_refl]). congruence.
+Qed.
+
+Lemma compact_okb_ok v ins outs : compact_okb v ins outs = true -> compact_ok v ins outs.
+Proof.
+  unfold compact_okb. intros H. apply andb_prop in H. destruct H as [H1 H2]. rewrite forallb_forall in H1, H2. split.
+  - intros x Hx. apply mem_sname_in. now apply H1.
+  - intros e He. specialize (H2 e He). unfold mem_ent in H2. apply existsb_exists in H2.
+    destruct H2 as (y & Hy & Ey). apply ent_eqb_eq in Ey. now subst.
+Qed.
+
+(* the check the driver runs is sound *)
+Lemma acceptedb_sound v o : acceptedb v o = true -> accepted v o.
+Proof.
+  destruct o as [b| |gc ins outs]; cbn [acceptedb accepted]; [apply keys_nodupb_nodup|auto|].
+  intros H. apply andb_prop in H. destruct H as [H1 H2]. pose proof (compact_okb_ok v ins outs H1) as Hok.
+  split; [exact Hok|]. intros k. rewrite forallb_forall in H2.
+  destruct (newest (all_entries v) k) as [m|] eqn:Nm.
+  - destruct (newest_some _ _ _ Nm) as (Hm & Hk & _). specialize (H2 m Hm). rewrite Hk in H2. now apply opt_eqb_eq in H2.
+  - pose proof (newest_none _ _ Nm) as Hno. unfold vis. rewrite Nm.
+    rewrite (newest_none_conv (all_entries (op_next v (OpCompact gc ins outs))) k); [reflexivity|].
+    intros e He. apply Hno. exact (entries_after_sub v gc ins outs Hok e He).
+Qed.
+
+(* ------------------------------------------------------------------ going on after an error *)
+Lemma run_prog_wf p : forall f k s d, wf s -> wf (fst (run_prog p f k s d)).
+Proof.
+  induction p as [|[c m] p IH]; intros f k s d Hw; cbn [run_prog]; [exact Hw|].
+  destruct k as [|k]; [|now apply IH].
+  destruct (retire_suppressed m d); [now apply IH|].
+  destruct (if match f with Some O => true | _ => false end then None else exec c s) as [s'|] eqn:E1.
+  - apply IH. destruct (match f with Some O => true | _ => false end); [discriminate|]. eapply exec_wf; eauto.
+  - destruct m; try (now apply IH); [exact Hw|].
+    destruct (match f with Some O => true | _ => false end); [exact Hw|now apply IH].
+Qed.
+
+(* the running invariant reads only the files recovery reads *)
+Lemma run_same_rel s s' v : wf s' -> same_rel s s' -> Run s v -> Run s' v.
+Proof.
+  intros Hw Hs R. pose proof (run_good s v R) as Hg. destruct (good_ext s s' _ Hw Hs Hg) as [Hst (_ & Hsst & Hlive & _)].
+  destruct R as [_ _ _ _ Hstrs Hlogs (lf & Hlf & Hmem)].
+  constructor; try assumption.
+  - now rewrite (same_rel_strs _ _ Hs).
+  - intros n. rewrite (Hs (NLog n) eq_refl). apply Hlogs.
+  - exists lf. split; [now rewrite (Hs (NLog (v_cur v)) eq_refl)|exact Hmem].
+Qed.
+
+Lemma optn_eqb_eq a b : optn_eqb a b = true -> a = b.
+Proof. destruct a, b; cbn; try discriminate; [|reflexivity]. intros H. apply N.eqb_eq in H. now subst. Qed.
+
+Lemma chunk_eqb_eq a b : chunk_eqb a b = true -> a = b.
+Proof.
+  destruct a, b; cbn [chunk_eqb]; try discriminate.
+  - intros H. apply sname_eqb_eq in H. now subst.
+  - intros H. apply sname_eqb_eq in H. now subst.
+  - intros H. apply andb_prop in H. destruct H as [H H3]. apply andb_prop in H. destruct H as [H1 H2].
+    apply snames_eqb_eq in H1. apply snames_eqb_eq in H2. apply optn_eqb_eq in H3. now subst.
+Qed.
+
+Lemma chunks_eq (a : list chunk) : forall b, length a = length b ->
+  forallb (fun cd => chunk_eqb (fst cd) (snd cd)) (combine a b) = true -> a = b.
+Proof.
+  induction a as [|x a IH]; intros [|y b]; cbn [length combine forallb fst snd]; try discriminate; [reflexivity|].
+  intros Hl H. apply andb_prop in H. destruct H as [H1 H2]. apply chunk_eqb_eq in H1. subst y. f_equal. apply IH; [lia|exact H2].
+Qed.
+
+Lemma file_eqb_eq a b : file_eqb a b = true -> a = b.
+Proof.
+  destruct a as [[da ua]|], b as [[db ub]|]; cbn [file_eqb f_dur f_data]; try discriminate; [|reflexivity].
+  intros H. apply andb_prop in H. destruct H as [H H3]. apply andb_prop in H. destruct H as [H1 H2].
+  apply Nat.eqb_eq in H1, H2. f_equal. rewrite (chunks_eq da db H2 H3). now subst.
+Qed.
+
+(* the driver's test is sound *)
+Lemma same_relb_sound s s' : same_relb s s' = true -> same_rel s s'.
+Proof.
+  unfold same_relb. rewrite forallb_forall. intros H n Hn.
+  destruct (lookup n s) as [f|] eqn:L1.
+  - assert (Hin : In n (map fst s ++ map fst s')) by (apply in_or_app; left; apply in_map_iff; exists (n, f); split; [reflexivity|now apply lookup_in]).
+    specialize (H n Hin). rewrite Hn in H. cbn [negb orb] in H. rewrite L1 in H. apply file_eqb_eq in H. now symmetry.
+  - destruct (lookup n s') as [g|] eqn:L2; [|reflexivity].
+    assert (Hin : In n (map fst s ++ map fst s')) by (apply in_or_app; right; apply in_map_iff; exists (n, g); split; [reflexivity|now apply lookup_in]).
+    specialize (H n Hin). rewrite Hn in H. cbn [negb orb] in H. rewrite L1, L2 in H. discriminate.
+Qed.
+
+Lemma run_fault_next s v o : Run s v -> Run s (fault_next v o).
+Proof. intros R. destruct o; [|exact R|exact R]. destruct R. constructor; assumption. Qed.
 
 (* ------------------------------------------------------------------ configurations *)
 Record cfg := mkCfg {
   c_fs : fs;
-  c_v : option vstate;              (* the open store; None = the process is down *)
-  c_ack : list (list entry);        (* ghost: the batches whose write call returned Ok, in order *)
-  c_fly : list (list entry)         (* ghost: the batches that were in flight at some crash *)
+  c_v : option vstate;                     (* the open store; None = the process is down *)
+  c_hist : list (bool * list entry)        (* ghost: the write batches issued so far, see `sel` *)
 }.
 
-Definition init_cfg : cfg := mkCfg [] None [] [].
+Definition init_cfg : cfg := mkCfg [] None [].
 
-Definition ack_next (v : vstate) (o : op) (ack : list (list entry)) : list (list entry) :=
-  match op_batch v o with Some p => ack ++ [p] | None => ack end.
+Definition hist_next (v : vstate) (o : op) (ack : bool) (h : list (bool * list entry)) : list (bool * list entry) :=
+  match op_batch v o with Some p => h ++ [(ack, p)] | None => h end.
 
 Inductive step : cfg -> cfg -> Prop :=
 | step_open c s' :
     c_v c = None -> run (fst (fst (open_prog (c_fs c)))) (c_fs c) = (s', None) -> snd (open_prog (c_fs c)) = true ->
-    step c (mkCfg s' (Some (snd (fst (open_prog (c_fs c))))) (c_ack c) (c_fly c))
+    step c (mkCfg s' (Some (snd (fst (open_prog (c_fs c))))) (c_hist c))
 | step_open_crash c k img :
     c_v c = None -> cut (prefix_state (fst (fst (open_prog (c_fs c)))) k (c_fs c)) img ->
-    step c (mkCfg img None (c_ack c) (c_fly c))
+    step c (mkCfg img None (c_hist c))
 | step_op c v o s' :
     c_v c = Some v -> accepted v o ->
     run (fst (op_prog v (c_fs c) o)) (c_fs c) = (s', None) -> snd (op_prog v (c_fs c) o) = true ->
-    step c (mkCfg s' (Some (op_next v o)) (ack_next v o (c_ack c)) (c_fly c))
+    step c (mkCfg s' (Some (op_next v o)) (hist_next v o true (c_hist c)))
 | step_op_crash c v o k img :
     c_v c = Some v -> accepted v o ->
     cut (prefix_state (fst (op_prog v (c_fs c) o)) k (c_fs c)) img ->
-    step c (mkCfg img None (c_ack c) (ack_next v o (c_fly c)))
+    step c (mkCfg img None (hist_next v o false (c_hist c)))
 | step_crash c v img :
     c_v c = Some v -> cut (c_fs c) img ->
-    step c (mkCfg img None (c_ack c) (c_fly c)).
+    step c (mkCfg img None (c_hist c))
+(* an I/O error at call j is returned to the caller and the store goes on: covered when the error
+   struck before the operation changed any file recovery reads (the log's write() of a write, the
+   first call of a flush, the output files of a compaction, ...) *)
+| step_op_fault c v o j s' e :
+    c_v c = Some v -> accepted v o ->
+    run_prog (fst (op_prog v (c_fs c) o)) (Some j) O (c_fs c) None = (s', Some e) ->
+    same_rel (c_fs c) s' ->
+    step c (mkCfg s' (Some (fault_next v o)) (hist_next v o false (c_hist c)))
+(* the store refuses an operation without a single call (a write after its log failed, a flush
+   after the memtable thread died) *)
+| step_op_refused c v o :
+    c_v c = Some v -> accepted v o ->
+    step c (mkCfg (c_fs c) (Some (fault_next v o)) (hist_next v o false (c_hist c))).
 
 Inductive reach : cfg -> Prop :=
 | reach_init : reach init_cfg
@@ -105,7 +403,7 @@ Inductive reach : cfg -> Prop :=
 
 (* ------------------------------------------------------------------ the invariant *)
 Definition holds (E : list entry) (c : cfg) : Prop :=
-  exists ch, sub ch (c_fly c) /\ forall e, In e E <-> In e (concat (c_ack c) ++ concat ch).
+  (exists W, sel (c_hist c) W /\ explains W E) /\ ts_unique E.
 
 (* every timestamp in the store is at most state.seq_no: the next write gets a larger one *)
 Definition seq_ok (v : vstate) : Prop := forall e, In e (all_entries v) -> ets e <= v_seq v.
@@ -128,9 +426,9 @@ Proof.
   apply max_ts_ge in He. lia.
 Qed.
 
-Lemma seq_ok_next v o : accepted v o -> seq_ok v -> seq_ok (op_next v o).
+Lemma seq_ok_next v o : op_fs_ok v o -> seq_ok v -> seq_ok (op_next v o).
 Proof.
-  intros Ha Hs e He. apply (all_entries_next v o Ha e) in He. apply in_app_or in He.
+  intros Ha Hs e He. apply (all_entries_next_incl v o Ha e) in He. apply in_app_or in He.
   assert (Hle : v_seq v <= v_seq (op_next v o)) by (destruct o; cbn [op_next v_seq]; lia).
   destruct He as [He|He].
   - specialize (Hs e He). lia.
@@ -147,46 +445,116 @@ Qed.
 Lemma rec_good_image s img E : cut s img -> Rec img E -> Good img E.
 Proof. intros Hc Hr. split; [eapply cut_stable; eauto|exact Hr]. Qed.
 
+Lemma batch_keys v b : map ek (batch_entries v b) = map fst b.
+Proof. unfold batch_entries. rewrite map_map. reflexivity. Qed.
+
+Lemma batch_ts v b e : In e (batch_entries v b) -> ets e = v_seq v + 1.
+Proof. unfold batch_entries. intros H. apply in_map_iff in H. destruct H as (kv & <- & _). reflexivity. Qed.
+
+(* the store after a write, whether the call returned or a crash kept its batch *)
+Lemma holds_write (h : list (bool * list entry)) v b a E : NoDup (map fst b) -> (forall e, In e E -> ets e <= v_seq v) ->
+  (exists W, sel h W /\ explains W E) /\ ts_unique E ->
+  (exists W, sel (h ++ [(a, batch_entries v b)]) W /\ explains W (E ++ batch_entries v b)) /\ ts_unique (E ++ batch_entries v b).
+Proof.
+  intros Hnd Hseq [(W & Hsel & Hex) Hu].
+  assert (Hold : forall e, In e E -> ets e < v_seq v + 1) by (intros e He; specialize (Hseq e He); lia).
+  assert (Hnd' : NoDup (map ek (batch_entries v b))) by (now rewrite batch_keys).
+  split.
+  - exists (W ++ [batch_entries v b]). split; [now apply sel_snoc_keep|].
+    apply (explains_write W E _ (v_seq v + 1)); [exact Hold|apply batch_ts|exact Hnd'|exact Hex].
+  - apply (ts_unique_write E _ (v_seq v + 1)); [exact Hold|apply batch_ts|exact Hnd'|exact Hu].
+Qed.
+
+Lemma holds_next v o c : accepted v o -> seq_ok v -> holds (all_entries v) c ->
+  holds (all_entries (op_next v o)) (mkCfg (c_fs c) (c_v c) (hist_next v o true (c_hist c))).
+Proof.
+  intros Ha Hseq Hh. unfold holds in *. cbn [c_hist]. destruct o as [b| |gc ins outs]; unfold hist_next; cbn [op_batch].
+  - destruct (holds_write (c_hist c) v b true (all_entries v) Ha Hseq Hh) as [(W & Hsel & Hex) Hu].
+    assert (Heq : forall e, In e (all_entries v ++ batch_entries v b) <-> In e (all_entries (op_next v (OpWrite b))))
+      by (intros e; symmetry; apply (all_entries_next v (OpWrite b)); discriminate).
+    split; [exists W; split; [exact Hsel|eapply explains_set_eq; eauto]|].
+    eapply ts_unique_incl; [|exact Hu]. intros e He. now apply Heq.
+  - destruct Hh as [(W & Hsel & Hex) Hu].
+    assert (Heq : forall e, In e (all_entries v) <-> In e (all_entries (op_next v OpFlush))).
+    { intros e. rewrite (all_entries_next v OpFlush) by discriminate. cbn [op_batch]. now rewrite app_nil_r. }
+    split; [exists W; split; [exact Hsel|eapply explains_set_eq; eauto]|].
+    eapply ts_unique_incl; [|exact Hu]. intros e He. now apply Heq.
+  - destruct Hh as [(W & Hsel & Hex) Hu]. destruct Ha as [Hok Hvis].
+    pose proof (entries_after_sub v gc ins outs Hok) as Hsub.
+    assert (Hu' : ts_unique (all_entries (op_next v (OpCompact gc ins outs)))) by (eapply ts_unique_incl; eauto).
+    split; [|exact Hu']. exists W. split; [exact Hsel|].
+    apply (explains_sub W (all_entries v)); [exact Hsub| |exact Hex].
+    intros k x Hs. rewrite (shows_vis _ k x Hu' Hs), Hvis. apply vis_shows.
+Qed.
+
+Lemma holds_fault v o c : holds (all_entries v) c -> seq_ok v ->
+  holds (all_entries (fault_next v o)) (mkCfg (c_fs c) (c_v c) (hist_next v o false (c_hist c))) /\ seq_ok (fault_next v o).
+Proof.
+  intros [(W & Hsel & Hex) Hu] Hseq. destruct o as [b| |gc ins outs]; unfold holds, hist_next; cbn [op_batch fault_next c_hist].
+  - split; [split; [exists W; split; [now apply sel_snoc_drop|exact Hex]|exact Hu]|].
+    intros e He. specialize (Hseq e He). cbn [v_seq]. lia.
+  - split; [split; [exists W; auto|exact Hu]|exact Hseq].
+  - split; [split; [exists W; auto|exact Hu]|exact Hseq].
+Qed.
+
 Lemma inv_step c c' : inv c -> step c c' -> inv c'.
 Proof.
-  intros Hi Hs. destruct Hs as [c s' Hv Hr Hok|c k img Hv Hc|c v o s' Hv Ha Hr Hok|c v o k img Hv Ha Hc|c v img Hv Hc];
-    unfold inv in *; rewrite Hv in Hi; cbn [c_v c_fs c_ack c_fly].
+  intros Hi Hs. destruct Hs as [c s' Hv Hr Hok|c k img Hv Hc|c v o s' Hv Ha Hr Hok|c v o k img Hv Ha Hc|c v img Hv Hc|c v o j s' e Hv Ha Hr Hsame|c v o Hv Ha];
+    unfold inv in *; rewrite Hv in Hi; cbn [c_v c_fs c_hist].
   - (* open *)
-    destruct Hi as (E & Hg & (ch & Hsub & HE)).
+    destruct Hi as (E & Hg & ((W & Hsel & Hex) & Hu)).
     destruct (open_walk (c_fs c) E Hg) as [[_ (s'' & Hr' & HR & Hent)] _].
     rewrite Hr in Hr'. inversion Hr'; subst s''. split; [exact HR|]. split; [|apply seq_ok_open].
-    exists ch. cbn [c_ack c_fly]. split; [exact Hsub|]. intros e. rewrite Hent. apply HE.
+    split; [exists W; cbn [c_hist]; split; [exact Hsel|]|].
+    + apply (explains_set_eq W E); [intros e; symmetry; apply Hent|exact Hex].
+    + eapply ts_unique_incl; [|exact Hu]. intros e He. now apply Hent.
   - (* crash during recovery *)
     destruct Hi as (E & Hg & Hh).
     destruct (open_walk (c_fs c) E Hg) as [[Hp _] _].
     destruct (Hp None k img Hc) as [Hrec|(p & Hp' & _)]; [|discriminate].
     exists E. split; [eapply rec_good_image; eauto|exact Hh].
   - (* an operation completes *)
-    destruct Hi as (HR & (ch & Hsub & HE) & Hseq).
-    destruct (op_walk (c_fs c) v o HR Ha) as [_ Hq]. split; [now apply (Hq s' Hr)|]. split; [|now apply seq_ok_next].
-    exists ch. cbn [c_ack c_fly]. split; [exact Hsub|]. intros e. rewrite (all_entries_next v o Ha e). unfold ack_next.
-    destruct (op_batch v o) as [p|].
-    + rewrite concat_app. cbn [concat]. rewrite app_nil_r, !in_app_iff, (HE e), in_app_iff. tauto.
-    + rewrite app_nil_r. apply HE.
+    destruct Hi as (HR & Hh & Hseq). pose proof (accepted_fs_ok v o Ha) as Hf.
+    destruct (op_walk (c_fs c) v o HR Hf) as [_ Hq]. split; [now apply (Hq s' Hr)|]. split; [|now apply seq_ok_next].
+    exact (holds_next v o c Ha Hseq Hh).
   - (* crash during an operation *)
-    destruct Hi as (HR & (ch & Hsub & HE) & _).
-    destruct (op_walk (c_fs c) v o HR Ha) as [Hp _].
+    destruct Hi as (HR & Hh & Hseq). pose proof (accepted_fs_ok v o Ha) as Hf.
+    destruct (op_walk (c_fs c) v o HR Hf) as [Hp _].
     destruct (Hp None k img Hc) as [Hrec|(p & Hp' & Hrec)].
-    + exists (all_entries v). split; [eapply rec_good_image; eauto|].
-      exists ch. cbn [c_ack c_fly]. split; [|exact HE]. unfold ack_next. destruct (op_batch v o); [now apply sub_app_skip|exact Hsub].
-    + exists (all_entries v ++ p). split; [eapply rec_good_image; eauto|].
-      exists (ch ++ [p]). cbn [c_ack c_fly]. unfold ack_next. rewrite Hp'. split; [now apply sub_app_keep|].
-      intros e. rewrite concat_app. cbn [concat]. rewrite app_nil_r, !in_app_iff, (HE e), in_app_iff. tauto.
+    + (* the image holds the base: the entries before (write, flush), after (compaction) *)
+      exists (op_base v o). split; [eapply rec_good_image; eauto|].
+      destruct o as [b| |gc ins outs]; unfold holds, hist_next; cbn [op_base op_batch c_hist].
+      * destruct Hh as [(W & Hsel & Hex) Hu]. split; [|exact Hu]. exists W. split; [now apply sel_snoc_drop|exact Hex].
+      * exact Hh.
+      * pose proof (holds_next v (OpCompact gc ins outs) c Ha Hseq Hh) as H. unfold holds, hist_next in H. cbn [op_batch c_hist] in H. exact H.
+    + destruct o as [b| |gc ins outs]; cbn [op_pend op_base] in Hp', Hrec; [| discriminate|]; inversion Hp'; subst p.
+      * exists (all_entries v ++ batch_entries v b). split; [eapply rec_good_image; eauto|].
+        unfold holds, hist_next. cbn [op_batch c_hist]. apply holds_write; [exact Ha|exact Hseq|exact Hh].
+      * (* the compaction's edit did not reach the disk: everything the store held before *)
+        exists (all_entries v). split.
+        -- eapply rec_good_image; [exact Hc|]. eapply rec_set_eq; [|exact Hrec].
+           intros e. rewrite in_app_iff. split; [intros [H|H]; [|exact H]|now right].
+           exact (entries_after_sub v gc ins outs Hf e H).
+        -- exact Hh.
   - (* crash while idle *)
     destruct Hi as (HR & Hh & _). pose proof (run_good _ _ HR) as Hg.
     destruct (good_safe _ _ None Hg img Hc) as [Hrec|(p & Hp' & _)]; [|discriminate].
     exists (all_entries v). split; [eapply rec_good_image; eauto|exact Hh].
+  - (* an error was returned; recovery's files are as before *)
+    destruct Hi as (HR & Hh & Hseq).
+    assert (Hw' : wf s') by (pose proof (run_prog_wf (fst (op_prog v (c_fs c) o)) (Some j) O (c_fs c) None (run_wf _ _ HR)) as H; now rewrite Hr in H).
+    split; [apply run_fault_next; eapply run_same_rel; eauto|].
+    apply (holds_fault v o c Hh Hseq).
+  - (* refused *)
+    destruct Hi as (HR & Hh & Hseq). split; [now apply run_fault_next|]. apply (holds_fault v o c Hh Hseq).
 Qed.
 
 Lemma inv_reach c : reach c -> inv c.
 Proof.
   induction 1 as [|c c' _ IH Hs]; [|eapply inv_step; eauto].
-  unfold inv, init_cfg. cbn. exists []. split; [exact good_empty|]. exists []. split; [constructor|]. cbn. tauto.
+  unfold inv, init_cfg. cbn. exists []. split; [exact good_empty|]. split; [|intros e e' []].
+  exists []. split; [constructor|]. split; [|intros e []].
+  intros k x [(e & [] & _)|[-> _]]. reflexivity.
 Qed.
 
 (* ------------------------------------------------------------------ the theorems *)
@@ -194,22 +562,22 @@ Theorem crash_safe c : reach c -> c_v c = None ->
   exists s', run (fst (fst (open_prog (c_fs c)))) (c_fs c) = (s', None) /\
              snd (open_prog (c_fs c)) = true /\
              Run s' (snd (fst (open_prog (c_fs c)))) /\
-             exists ch, sub ch (c_fly c) /\
-               forall e, In e (all_entries (snd (fst (open_prog (c_fs c))))) <-> In e (concat (c_ack c) ++ concat ch).
+             exists W, sel (c_hist c) W /\ explains W (all_entries (snd (fst (open_prog (c_fs c))))).
 Proof.
   intros Hr Hv. pose proof (inv_reach c Hr) as Hi. unfold inv in Hi. rewrite Hv in Hi.
-  destruct Hi as (E & Hg & (ch & Hsub & HE)).
+  destruct Hi as (E & Hg & ((W & Hsel & Hex) & _)).
   destruct (open_walk (c_fs c) E Hg) as [[_ (s' & Hrun & HR & Hent)] Hok].
   exists s'. split; [exact Hrun|]. split; [exact Hok|]. split; [exact HR|].
-  exists ch. split; [exact Hsub|]. intros e. rewrite Hent. apply HE.
+  exists W. split; [exact Hsel|]. apply (explains_set_eq W E); [intros e; symmetry; apply Hent|exact Hex].
 Qed.
 
-(* while the store is open its contents are the acknowledged batches plus whole in-flight ones *)
+(* while the store is open every key reads as the last write to it among the acknowledged batches
+   and whole in-flight ones, and the store holds nothing else *)
 Theorem open_store_contents c v : reach c -> c_v c = Some v ->
-  Run (c_fs c) v /\ exists ch, sub ch (c_fly c) /\
-    forall e, In e (all_entries v) <-> In e (concat (c_ack c) ++ concat ch).
+  Run (c_fs c) v /\ exists W, sel (c_hist c) W /\ explains W (all_entries v).
 Proof.
-  intros Hr Hv. pose proof (inv_reach c Hr) as Hi. unfold inv in Hi. rewrite Hv in Hi. tauto.
+  intros Hr Hv. pose proof (inv_reach c Hr) as Hi. unfold inv in Hi. rewrite Hv in Hi.
+  destruct Hi as (HR & ((W & Hsel & Hex) & _) & _). split; [exact HR|]. exists W. auto.
 Qed.
 
 (* the sequence number of the next write is larger than every timestamp the store holds *)
@@ -243,16 +611,6 @@ Proof.
 Qed.
 
 (* ------------------------------------------------------------------ injected I/O errors *)
-Lemma deferred_stays p : forall f k s e, snd (run_prog p f k s (Some e)) <> None.
-Proof.
-  induction p as [|[c m] p IH]; intros f k s e; cbn [run_prog]; [discriminate|].
-  destruct k; [|apply IH].
-  destruct m; try (apply IH);
-    (destruct (if match f with Some O => true | _ => false end then None else exec c s); [apply IH|]);
-    try (apply IH); try discriminate.
-  destruct (match f with Some O => true | _ => false end); [discriminate|apply IH].
-Qed.
-
 (* a single I/O error injected at the k-th call of an operation that would otherwise succeed is
    returned to the caller, unless the Rust deliberately drops the result of that call *)
 Definition dropped (m : mode) : Prop := m = Ignore \/ m = Retire.
@@ -260,7 +618,7 @@ Definition dropped (m : mode) : Prop := m = Ignore \/ m = Retire.
 Lemma run_ok_tail c m p s : run ((c, m) :: p) s = (fst (run ((c, m) :: p) s), None) ->
   run p (exec_or c s) = (fst (run p (exec_or c s)), None).
 Proof.
-  unfold run, exec_or. cbn [run_prog]. intros H.
+  unfold run, exec_or. cbn [run_prog]. rewrite retire_suppressed_none. intros H.
   assert (G : forall t, snd (run_prog p None O t None) = None -> run_prog p None O t None = (fst (run_prog p None O t None), None))
     by (intros t Ht; destruct (run_prog p None O t None); cbn in *; now subst).
   destruct (exec c s) as [s1|] eqn:E1.
@@ -268,6 +626,7 @@ Proof.
   - apply G. destruct m; try (rewrite H; reflexivity).
     + cbn in H. discriminate.
     + exfalso. pose proof (deferred_stays p None n s EIo) as Hd. rewrite H in Hd. now apply Hd.
+    + exfalso. pose proof (deferred_stays p None n s (late_err None)) as Hd. rewrite H in Hd. now apply Hd.
 Qed.
 
 Lemma fault_surfaced_prog p : forall k s, run p s = (fst (run p s), None) ->
@@ -276,16 +635,18 @@ Lemma fault_surfaced_prog p : forall k s, run p s = (fst (run p s), None) ->
 Proof.
   induction p as [|[c m] p IH]; intros k s Hrun Hk Hm; [cbn in Hk; lia|].
   pose proof (run_ok_tail c m p s Hrun) as Htail. unfold exec_or in Htail.
-  cbn [run_prog]. destruct k as [|k].
+  cbn [run_prog]. rewrite retire_suppressed_none. destruct k as [|k].
   - cbn [nth snd] in Hm. destruct m; try discriminate.
     + exfalso. apply Hm. now left.
     + exfalso. apply Hm. now right.
     + apply deferred_stays.
+    + apply deferred_stays.
   - cbn [nth] in Hm. cbn [length] in Hk.
-    unfold run in Hrun. cbn [run_prog] in Hrun.
+    unfold run in Hrun. cbn [run_prog] in Hrun. rewrite retire_suppressed_none in Hrun.
     destruct (exec c s) as [s1|] eqn:E1.
     + destruct m; (apply IH; [exact Htail|lia|exact Hm]).
     + destruct m; try (apply IH; [exact Htail|lia|exact Hm]).
       * cbn in Hrun. discriminate.
       * exfalso. pose proof (deferred_stays p None n s EIo) as H. rewrite Hrun in H. now apply H.
+      * exfalso. pose proof (deferred_stays p None n s (late_err None)) as H. rewrite Hrun in H. now apply H.
 Qed.
